@@ -314,7 +314,7 @@ Proof.
         as (b' & stk' & seen' & E & HI').
       rewrite E. apply Inv_emit in HI'.
       assert (HF' : length (U g) + 1 <= F + length (out ++ [b'])).
-      { rewrite app_length. simpl. lia. }
+      { rewrite app_length. change (length [b']) with 1. lia. }
       destruct (IH stk' seen' (out ++ [b']) HI' HF') as (l' & El & Hf).
       rewrite El. exists (b' :: l'). split; [reflexivity|].
       rewrite <- app_assoc in Hf. exact Hf.
